@@ -464,6 +464,41 @@ func extent(pairs []*wmpt.PersistTriePair, i, depth int) int {
 	return end
 }
 
+// cyclic reports whether the nodes readable from db describe a graph with a cycle below root.
+func cyclic(db util.NodeDB, root util.Key) bool {
+	onStack := map[string]bool{}
+	done := map[string]bool{}
+	var walk func(k util.Key) bool
+	walk = func(k util.Key) bool {
+		sk := string(k)
+		if onStack[sk] {
+			return true
+		}
+		if done[sk] {
+			return false
+		}
+		n, err := db.GetNode(k)
+		if err != nil || n == nil {
+			done[sk] = true
+			return false
+		}
+		onStack[sk] = true
+		defer func() { delete(onStack, sk); done[sk] = true }()
+		switch x := n.(type) {
+		case *util.FullNode:
+			for _, ch := range x.Children {
+				if ch != nil && walk(ch) {
+					return true
+				}
+			}
+		case *util.ExtensionNode:
+			return walk(x.NodeKey)
+		}
+		return false
+	}
+	return len(root) > 0 && walk(root)
+}
+
 // faultyReader delivers short reads and fails (EOF or error) after a chosen number of bytes.
 type faultyReader struct {
 	b     []byte
@@ -697,7 +732,23 @@ func Exec(sc sim.Script) *sim.Outcome {
 			}
 			return v
 		}
+		// a spliced encoding can be a valid node that points back at an ancestor: the store then describes a
+		// cyclic trie and a traversal never ends (nothing a decoder could reject; outside C15). The read limit
+		// turns that into read errors long before the recursion exhausts the stack.
+		c.disk.ReadLimit = c.disk.St.Reads + 20000
 		t := util.NewMerklePatriciaTrie(c.pndb, 3, c.root, statecache.NewEmpty())
+		var cyc bool
+		r.guard("PNodeDB.GetNode over a corrupted stored node", b, func() { cyc = cyclic(c.pndb, c.root) })
+		if cyc {
+			// the trie caches what it has read, so the read limit alone does not end such a traversal
+			r.stats.Inc("probe.corrupted-node-makes-the-stored-trie-cyclic (traversals skipped, outside C15)")
+			r.guard("PNodeDB reads over a corrupted stored node", b, func() {
+				c.pndb.Iterate(context.Background(), func(ctx context.Context, key util.Key, node util.Node) error { node.Encode(); return nil })
+				c.pndb.GetNode(victim)
+			})
+			c.disk.ReadLimit = 0
+			break
+		}
 		r.guard("trie reads over a corrupted stored node", b, func() {
 			for _, p := range c.paths {
 				t.GetNodeValueRaw(util.Path(p))
@@ -709,6 +760,10 @@ func Exec(sc sim.Script) *sim.Outcome {
 			c.pndb.GetNode(victim)
 		})
 		r.stats.Add("probe.corrupt-reads", int64(c.disk.St.CorruptReads))
+		if c.disk.St.Reads > c.disk.ReadLimit {
+			r.stats.Inc("probe.traversal-of-a-cyclic-store-cut-by-the-read-limit")
+		}
+		c.disk.ReadLimit = 0
 	case "deadrec":
 		ks := c.disk.Keys(1)
 		if len(ks) == 0 {
@@ -754,6 +809,7 @@ func Exec(sc sim.Script) *sim.Outcome {
 			}
 			return v
 		}
+		c.kv.GetLimit = c.kv.St.Gets + 20000
 		t := wmpt.New(wmpt.NewHashNode(c.wroot, c.wweight), c.kv)
 		r.guard("weighted-trie reads over a corrupted stored node", b, func() {
 			for blk := uint64(1); blk <= c.wweight && blk <= 64; blk++ {
@@ -766,6 +822,10 @@ func Exec(sc sim.Script) *sim.Outcome {
 			t.GetPath(ks)
 		})
 		r.stats.Add("probe.corrupt-reads", int64(c.kv.St.CorruptReads))
+		if c.kv.St.Gets > c.kv.GetLimit {
+			r.stats.Inc("probe.traversal-of-a-cyclic-store-cut-by-the-read-limit")
+		}
+		c.kv.GetLimit = 0
 	case "export":
 		b := apply(c.export, c.wNodeV, func(b []byte, m Mut) []byte { return mutateMsg(b, m, c.wNodeV) })
 		for _, vb := range variants(b) {
